@@ -360,7 +360,9 @@ func handover() []*engine.Scenario {
 			var keep []*engine.Finding
 			for _, f := range fs {
 				switch {
-				case f.Sig == "lost-while-handle-open", f.Sig == "delivered-twice", strings.HasPrefix(f.Sig, "crash{"), strings.HasPrefix(f.Sig, "deadlock"):
+				// (call-after-close: a connection or datagram taken by the generation that has already
+				// been stopped - its handler is on its way out, the item is not served)
+				case f.Sig == "lost-while-handle-open", f.Sig == "delivered-twice", f.Sig == "call-after-close", strings.HasPrefix(f.Sig, "crash{"), strings.HasPrefix(f.Sig, "deadlock"):
 					f.Msg = "hand-over of a retained address from the old to the new generation: " + f.Msg
 					keep = append(keep, f)
 				}
